@@ -52,6 +52,8 @@ class Exec:
         self.known = {}
         self.classes = {}            # name -> ClassInfo (real classes, executed from their ast)
         self.models = {}             # Obj.cls -> model object (trusted / abstract classes)
+        from .symlist import SymListModel
+        self.models['symlist'] = SymListModel      # lists of symbolic length (pyvc/symlist.py)
         self.modules = {}            # module key -> globals dict
         self.builtins = dict(B.DEFAULT)
         self.oblig = OblList(self)
@@ -665,6 +667,9 @@ class Exec:
             return {ast.Sub: a - b, ast.BitAnd: a & b, ast.BitOr: a | b, ast.BitXor: a ^ b}[type(op)]
         if isinstance(op, ast.Add) and isinstance(a, (list, tuple)) and isinstance(b, (list, tuple)):
             return a + b
+        if isinstance(op, ast.Mult) and isinstance(a, list) and isinstance(b, z3.ExprRef) and z3.is_int(b):
+            from . import symlist as SL
+            return SL.repeat(self, a, b)
         if isinstance(op, ast.Mult) and isinstance(a, (list, tuple, str, bytes)) and isinstance(b, int):
             return a * b
         if isinstance(op, ast.Mult) and isinstance(b, (list, tuple, str, bytes)) and isinstance(a, int):
@@ -1185,6 +1190,11 @@ class Exec:
         return self.to_sort(v, sort)
 
     def e_ListComp(self, e, env):
+        if len(e.generators) == 1 and isinstance(e.generators[0].iter, (ast.Name, ast.Attribute)):      # a side-effect free iterable may be looked at first
+            it0 = self.ev(e.generators[0].iter, env)
+            if isinstance(it0, Obj) and it0.cls == 'symlist':
+                from . import symlist as SL
+                return SL.comprehension(self, e, env, it0)
         r = self.comprehend(e, env)
         if r is None:
             raise Unsupported('list comprehension over a symbolic collection')
